@@ -58,3 +58,24 @@ Example C20_retrieve_sound_nonvacuous :
   let ks := [1; 2] in let ops := [OIns [(1, 0)] 7; OIns [(2, 0)] 8; OIns [(1, 0)] 9] in
   forallb (op_ok ks) ops = true /\ map snd (ic_retrieve (impl (state_after ks ops)) [(1, 0)]) = [9].
 Proof. split; vm_compute; reflexivity. Qed.
+
+(* ... and retrieval is COMPLETE whenever no level of the index holds both the wildcard and a concrete key: every stored entry
+   compatible with the lookup is returned.  So the known finding needs a MIXED level - exactly what the run-time signature of
+   the finding observes (a retrieval that visits a level holding All and a concrete key). *)
+Theorem C20_retrieve_complete_unmixed : forall ks ops l b o, ks <> [] -> forallb (op_ok ks) ops = true ->
+  Unmixed (root (impl (state_after ks ops))) ->
+  In (b, o) (spec (state_after ks ops)) -> compatible ks b l = true ->
+  exists r, In (r, o) (ic_retrieve (impl (state_after ks ops)) l).
+Proof. exact retrieve_complete_unmixed. Qed.
+Print Assumptions C20_retrieve_complete_unmixed.
+
+(* non-vacuity: full bindings only (what the unit tests reach): no mixed level, a partial lookup returns both compatible entries *)
+Example C20_unmixed_nonvacuous :
+  let ks := [1; 2] in let ops := [OIns [(1, 0); (2, 0)] 7; OIns [(1, 0); (2, 1)] 8; OIns [(1, 1); (2, 0)] 9] in
+  forallb (op_ok ks) ops = true /\ map snd (ic_retrieve (impl (state_after ks ops)) [(1, 0)]) = [7; 8] /\
+  Unmixed (root (impl (state_after ks ops))).
+Proof.
+  cbv zeta. split; [reflexivity|]. split; [vm_compute; reflexivity|]. vm_compute.
+  constructor; [right; reflexivity|]. intros c ch [H|[H|[]]]; injection H as _ <-;
+    (constructor; [right; reflexivity | intros c' ch' H'; cbn in H'; intuition discriminate]).
+Qed.
